@@ -27,6 +27,11 @@ func DefaultBackoffConfig() BackoffConfig {
 
 func CalculateBackoff(cfg BackoffConfig, attempt int) time.Duration {
 	backoff := float64(cfg.InitialBackoff) * math.Pow(cfg.BackoffMultiplier, float64(attempt))
+	if math.IsNaN(backoff) {
+		// 0 * +Inf (no initial backoff, huge attempt number): the product is 0,
+		// not NaN, which would convert to a negative duration below.
+		backoff = 0
+	}
 	if backoff > float64(cfg.MaxBackoff) {
 		backoff = float64(cfg.MaxBackoff)
 	}
